@@ -48,7 +48,7 @@ pub enum Frontend {
 }
 
 /// (MAX_RADIO_POWER, ANTENNA_GAIN) of the simulated boards (associated consts of the radio type).
-pub const BOARDS: [(u8, i8); 4] = [(14, 0), (22, 3), (30, -2), (5, 0)];
+pub const BOARDS: [(u8, i8); 5] = [(14, 0), (22, 3), (30, -2), (5, 0), (17, -1)];
 
 /// Radio-buffer size (const generic N) of the "small buffer" device variant.
 pub const SMALL_N: usize = 64;
@@ -85,6 +85,10 @@ pub struct WorldCfg {
     /// simulated chip instead of the stub radio
     #[serde(default)]
     pub phy: Option<crate::stack::PhyCfg>,
+    /// an application that collects its downlinks only now and then, on a device with the default downlink
+    /// queue of one entry (board 0, stub radio)
+    #[serde(default)]
+    pub lazy_app: bool,
 }
 
 impl WorldCfg {
@@ -105,6 +109,7 @@ impl WorldCfg {
             dev_seed: 1,
             small_buffer: false,
             phy: None,
+            lazy_app: false,
         }
     }
 }
@@ -577,6 +582,9 @@ impl Shrinkable for MacCase {
             fields.push(c);
             let mut c = self.cfg.clone();
             c.phy = None;
+            fields.push(c);
+            let mut c = self.cfg.clone();
+            c.lazy_app = false;
             fields.push(c);
             let mut c = self.cfg.clone();
             c.fcnt_up0 = 0;
